@@ -22,7 +22,7 @@ type inferShape struct {
 	account  string
 }
 
-var inferAccs = []string{"Assets:Bank", "Assets:Cash", "Expenses:Food", "Expenses:Rent", "Expenses:Fun", "Income:Salary", "Liabilities:Card"}
+var inferAccs = []string{"Assets:Bank", "Assets:Cash", "Expenses:Food", "Expenses:Rent", "Expenses:Fun", "Income:Salary", "Liabilities:Card", "Expenses:Büro", "Expenses:Café"}
 
 func genInferFiles(r *simrt.Rand, ties bool) (files map[string]string, args []string, placeholder string) {
 	placeholder = "Expenses:TBD"
@@ -78,7 +78,7 @@ func genInferFiles(r *simrt.Rand, ties bool) (files map[string]string, args []st
 			fmt.Fprintf(&tg, "2021-%02d-%02d \"%s\"\nAssets:Bank %s %s CHF\n\n", r.Range(1, 12), r.Range(1, 28), rc[0], placeholder, rc[1])
 			continue
 		}
-		desc := descPool[r.Intn(len(descPool)-5)]
+		desc := descPool[r.Intn(len(descPool)-7)]
 		if r.P(0.3) {
 			desc = []string{"Qwertz uiop", "Unseen words only", "ZZZ"}[r.Intn(3)]
 		}
